@@ -249,4 +249,93 @@ example : redirect "pos-vertices" "pos" [⟨"VERTEX", "pos"⟩, ⟨"NORMAL", "po
 example : emitProps ["emission", "diffuse", "shininess"] (fun p => if p = "diffuse" then none else some 1)
     [("diffuse", 5), ("custom", 9), ("emission", 3)] = [("custom", 9), ("emission", 1), ("shininess", 1)] := by decide
 
+/-! ### optional attributes: `_setAttribute` is a lens on the attribute the model value belongs to, and leaves the others alone -/
+
+theorem getAttr_setAttr (attrs : List (String × String)) (name : String) (v : Option String) :
+    getAttr (setAttr attrs name v) name = v := by
+  cases v with
+  | none =>
+    simp only [setAttr, getAttr]
+    have : (attrs.filter (fun p => p.1 != name)).find? (fun p => p.1 == name) = none := by
+      rw [List.find?_eq_none]
+      intro p hp
+      simp only [List.mem_filter] at hp
+      simpa using hp.2
+    rw [this]; rfl
+  | some x =>
+    simp only [setAttr, getAttr]
+    split
+    · next h =>
+      induction attrs with
+      | nil => simp at h
+      | cons p ps ih =>
+        simp only [List.map_cons, List.find?_cons]
+        by_cases hp : p.1 == name
+        · simp [hp]
+        · simp only [hp, if_false, Bool.false_eq_true]
+          have h' : ps.any (fun p => p.1 == name) = true := by
+            simp only [List.any_cons, hp, Bool.false_or] at h
+            exact h
+          simpa [hp] using ih h'
+    · next h =>
+      have hnone : attrs.find? (fun p => p.1 == name) = none := by
+        rw [List.find?_eq_none]
+        intro p hp
+        intro hc
+        exact h (List.any_eq_true.mpr ⟨p, hp, hc⟩)
+      simp [List.find?_append, hnone]
+
+private theorem find_filter_other (name other : String) (h : other ≠ name) : ∀ attrs : List (String × String),
+    (attrs.filter (fun p => p.1 != name)).find? (fun p => p.1 == other) = attrs.find? (fun p => p.1 == other)
+  | [] => rfl
+  | p :: ps => by
+    by_cases hp : p.1 = name
+    · have hpo : (p.1 == other) = false := by rw [hp]; simpa using (Ne.symm h)
+      have hf : (p.1 != name) = false := by simp [hp]
+      rw [List.filter_cons, hf, List.find?_cons, hpo]
+      exact find_filter_other name other h ps
+    · have hf : (p.1 != name) = true := by simpa using hp
+      rw [List.filter_cons, hf]
+      simp only [if_true, List.find?_cons]
+      cases p.1 == other
+      · exact find_filter_other name other h ps
+      · rfl
+
+private theorem find_map_other (name other x : String) (h : other ≠ name) : ∀ attrs : List (String × String),
+    (attrs.map (fun p => if p.1 == name then (name, x) else p)).find? (fun p => p.1 == other) = attrs.find? (fun p => p.1 == other)
+  | [] => rfl
+  | p :: ps => by
+    have hno : (name == other) = false := by simpa using (Ne.symm h)
+    by_cases hp : p.1 = name
+    · have hpo : (p.1 == other) = false := by rw [hp]; exact hno
+      have hb : (p.1 == name) = true := by simp [hp]
+      rw [List.map_cons, hb]
+      simp only [if_true, List.find?_cons, hno, hpo]
+      exact find_map_other name other x h ps
+    · have hb : (p.1 == name) = false := by simpa using hp
+      rw [List.map_cons, hb]
+      simp only [Bool.false_eq_true, if_false, List.find?_cons]
+      cases p.1 == other
+      · exact find_map_other name other x h ps
+      · rfl
+
+theorem getAttr_setAttr_other (attrs : List (String × String)) (name other : String) (v : Option String) (h : other ≠ name) :
+    getAttr (setAttr attrs name v) other = getAttr attrs other := by
+  have hno : (name == other) = false := by simpa using (Ne.symm h)
+  cases v with
+  | none => simp only [setAttr, getAttr, find_filter_other name other h attrs]
+  | some x =>
+    simp only [setAttr, getAttr]
+    split
+    · rw [find_map_other name other x h attrs]
+    · rw [List.find?_append]
+      cases hf : attrs.find? (fun p => p.1 == other) with
+      | some q => rfl
+      | none => simp [List.find?_cons, hno]
+
+/-- non-vacuity -/
+example : setAttr [("id", "a"), ("name", "n")] "id" none = [("name", "n")] := by decide
+example : setAttr [("id", "a"), ("name", "n")] "id" (some "b") = [("id", "b"), ("name", "n")] := by decide
+example : setAttr [("name", "n")] "id" (some "b") = [("name", "n"), ("id", "b")] := by decide
+
 end Pyc.Props.C06
